@@ -306,8 +306,13 @@ def o3(ctx, rep):
     rem = R.ok_removed()
     n = 0
     items = norm_items(dedup(m.items_at(R, "ret") + m.items_at(R, B)))
+    # functions that write the WAL themselves: a truncation of the WAL reached through one of them is the first step of
+    # REWRITING the WAL before the switch-over (`write_wal` calling `truncate_wal`), not the discarding of a completed sync's WAL
+    wal_writers = {ev.body.id for ev in ctx.events if ev.cls == "wal" and ev.kind == "write"}
     for it in items:
         e = it.event
+        if e.cls == "wal" and e.body.id in POST_ONLY_FUNCS and any(c[0] in wal_writers and c[0] != e.body.id for c in it.chain):
+            continue
         post = (
             (e.cls == "ht" and e.kind in ("write", "resize"))
             or (e.cls == "seglog" and e.kind in ("unlink", "resize", "open", "write"))
